@@ -432,7 +432,7 @@ def run_case(ctx, case):
 def finalize(ctx):
     blocks = ctx.extra.get('enumerated_blocks', {})
     lmax = 4 if ctx.tier == 'quick' else 6
-    ctx.extra['enumerated_completely'] = {f'L{L}': blocks.get(f'L{L}', 0) == (5 ** L + BLOCK - 1) // BLOCK
+    ctx.extra['enumerated_completely'] = {f'L{L}': blocks.get(f'L{L}', 0) >= (5 ** L + BLOCK - 1) // BLOCK
                                           for L in range(1, lmax + 1)}
     ctx.extra['exhaustive'] = False
     ctx.note('exhaustive only for the sequence lengths listed under enumerated_completely'
